@@ -34,7 +34,6 @@ from hypothesis import strategies as st
 
 from lv.core.runner import Prop
 from lv.core.runner import Result
-from lv.core.runner import exc_bucket
 from lv.gen.printer import to_source
 from lv.harness.envs import make_env
 from lv.harness.envs import run_coro
@@ -1128,9 +1127,17 @@ class C07(Prop):
         "a callee legitimately sees template globals, its own arguments, args/kwargs (macro) and forloop (render for)",
         "arguments of the call are literals, so a difference between the two runs cannot flow through them",
         "block bodies used for the before/after oracle assign only scratch names that no probe reads",
-        "loop-form calls / wrapping loops of different length are compared on the common prefix of their segments",
-        "flag 'outer-args' (render/macro arguments of an enclosing render/call varied as caller locals of a nested "
-        "render/call) can be switched off by a known finding or LV_C07_DISABLE=outer-args",
+        "callee outputs are compared position by position on the common prefix; a wrapping loop changes its length "
+        "between the two runs only when it is the single loop level (otherwise segments would re-align)",
+        "one context serves all iterations of `render ... for`: what the callee assigns in one iteration may shadow "
+        "its arguments in the next (not claimed either way), so argument visibility is read from the first probe",
+        "O5 is evaluated after the caller's `except` block has ended (a lambda generator suspended by an error in "
+        "its consumer is closed when the traceback is released; until then scope.size() is one too large - counted "
+        "as label O5:size-off-while-exception-alive, no name is visible through it)",
+        "kept out of the programs because they fail for reasons of their own: a tablerow tag directly inside a "
+        "tablerow block (does not parse), comparing two ForLoop drops (uniq/sort keyed by forloop: advances the loop)",
+        "flag 'outer-args' (arguments / bound variable / forloop of an ENCLOSING render or call, varied as locals "
+        "of the caller of a nested render / call) can be switched off by a known finding or LV_C07_DISABLE=outer-args",
     ]
     batch = 250
 
@@ -1181,9 +1188,9 @@ class C07(Prop):
         templates = {k: to_source(resolve(v, sides)) for k, v in case["templates"].items()}
         return main, templates
 
-    def _run(self, case: Any, sides: dict[str, str], *, strict: bool = False) -> tuple[str, Any]:
+    def _run(self, case: Any, sides: dict[str, str]) -> tuple[str, Any]:
         src, templates = self._sources(case, sides)
-        env = make_env(templates, shopify=True, undefined=StrictUndefined if strict else None)
+        env = make_env(templates, shopify=True)
         tmpl = env.from_string(src)  # a LiquidError here is a generator bug: let it propagate
         try:
             if case.get("mode") == "async":
@@ -1371,7 +1378,6 @@ class C07(Prop):
             return
         ev0 = events(base[1])
         last: dict[str, str] = {}
-        seen_after = 0
         for kind, sid, text in ev0:
             if kind == "before":
                 last[sid] = text
@@ -1379,11 +1385,11 @@ class C07(Prop):
             want = last.pop(sid, None)
             if want is None or sid not in sites:
                 continue
-            seen_after += 1
             info = sites[sid]
             if info["binders"]:
                 res.nontrivial = True
-            res.labels.append(f"O4:{info['kind']}:{'+'.join(info['exits']) or 'normal'}")
+            for ex in info["exits"] or ["normal"]:
+                res.labels.append(f"O4:{info['kind']}:{ex}")
             if want != text:
                 names = diff_fields(want, text)
                 cons = constructs_for(names, info["binders"], info["kind"], info.get("crossed"))
